@@ -12,10 +12,12 @@ int64_t __vf_now(void) { return g_now; }
 void    __vf_set_now(int64_t t) { g_now = t; }
 /* the random source is a symbolic variable: every outcome in [lo,hi] */
 uint64_t g_draws;
+uint64_t h_draw[16]; /* the draws, in order, for trace extraction */
 uint64_t __vf_random(uint64_t lo, uint64_t hi)
 {
     uint64_t r = nondet_u64();
     __CPROVER_assume(lo <= r && r <= hi);
+    h_draw[g_draws & 15] = r;
     g_draws++;
     return r;
 }
